@@ -1,10 +1,11 @@
 """C19 load_schema — structural obligations."""
 import ast
+import re
 
 from sa.loader import AnalysisError, norm, walk_local
 from sa.cfg import cfg_of, handler_names
 from sa.pathsum import summaries
-from .common import resolve_local, namespace_from_schema_name, assigned_values, analysis, names_in, ends_in_raise, str_consts_compared, eq_texts, true_facts
+from .common import resolve_local, namespace_from_schema_name, assigned_values, analysis, names_in, ends_in_raise, str_consts_compared, eq_texts, true_facts, value_sources
 
 PROP = "C19"
 TECHNIQUE = "error-mapping discipline of the repository and the retry loop; CFG order of the single-injection bookkeeping; sibling agreement of the two schema walkers (reference qualification, namespace provenance by reaching definitions, kinds); threading of the injected flag through sibling positions; per-path summary of the ordered loader's result; effect analysis restricted to the loader (the caller's name table is never rolled back)"
@@ -17,6 +18,23 @@ LEVEL_TEXT = (
 )
 LEVEL_NOTE = "Not decided: equivalence with inlining for every dependency graph (runtime values). State leaks across loads (e.g. a cache on the repository) are decided by C17."
 ASSUMPTIONS = []
+
+
+def retry_function(p):
+    """the loader's retry function, by role: the function of the schema module that calls parse_schema inside a try
+    with an `except UnknownType` handler"""
+    mod = p.func("_schema_py:load_schema").mod
+    found = []
+    for f in p.all_functions():
+        if f.mod is not mod:
+            continue
+        for n in walk_local(f.node):
+            if isinstance(n, ast.Try) and any("UnknownType" in nm for h in n.handlers for nm in handler_names(h)) and any(isinstance(c, ast.Call) and isinstance(c.func, ast.Name) and c.func.id == "parse_schema" for st in n.body for c in ast.walk(st)):
+                found.append(f)
+                break
+    if len(found) != 1:
+        raise AnalysisError(f"expected one function retrying parse_schema on UnknownType, found {[f.qualname for f in found]}")
+    return found[0]
 
 
 def run(ctx):
@@ -38,7 +56,7 @@ def run(ctx):
     ctx.check("C19.R1", "I/O and JSON errors are mapped to SchemaRepositoryError", ok, ld.where(), f"load handlers: {sorted(caught)}", "a missing or malformed file must surface as SchemaRepositoryError (which the loader turns into the UnknownType naming the missing type)")
     ok = any(isinstance(n, ast.Return) and norm(n.value) == "json.load(schema_file)" for n in walk_local(ld.node)) and not any(isinstance(n, (ast.FunctionDef,)) and n.decorator_list for n in [ld.node])
     ctx.check("C19.R1", "each load reads and parses the file afresh (no decorator on load)", ok, ld.where(), "FlatDictRepository.load", "a cached raw schema is later edited in place by the injection step: the second load of the same type sees already-inlined dependencies")
-    pw = p.func("_schema_py:_parse_schema_with_repo")
+    pw = retry_function(p)
     outer = [n for n in walk_local(pw.node) if isinstance(n, ast.Try) and any("UnknownType" in nm for h in n.handlers for nm in handler_names(h))]
     ok = False
     if len(outer) == 1:
@@ -51,37 +69,84 @@ def run(ctx):
             want = f"{h.name}.name"
             loads = [c for st in inner[0].body for c in ast.walk(st) if isinstance(c, ast.Call) and c.args]
             ok = ok and any(norm(resolve_local(pw.node, c.args[0])) == want or (isinstance(c.args[0], ast.Call) and c.args[0].args and norm(resolve_local(pw.node, c.args[0].args[0])) == want) for c in loads)
-    ctx.check("C19.R1", "retry loop: the missing subject is error.name and a failed load re-raises that UnknownType", ok, pw.where(), "_parse_schema_with_repo handlers", "a missing file must surface as an error naming the missing type, not as a repository error about a file")
+    ctx.check("C19.R1", "retry loop: the missing subject is error.name and a failed load re-raises that UnknownType", ok, pw.where(), f"{pw.name} handlers", "a missing file must surface as an error naming the missing type, not as a repository error about a file")
     ut = p.cls("_schema_common:UnknownType").methods["__init__"]
     ok = any(isinstance(n, ast.Assign) and norm(n) == "self.name = name" for n in walk_local(ut.node))
     ctx.check("C19.R1", "UnknownType carries the name", ok, ut.where(), "UnknownType.__init__", "the loader needs the missing name")
 
     ctx.rule("C19.R2", "single injection: membership test before, insertion after, on the injected full name", floor=2)
     cfg = cfg_of(pw)
-    tests = [t for t in cfg.nodes if t.kind == "test" and norm(t.ast) == "sub_schema['name'] not in injected_schemas"]
-    adds = [n for n in walk_local(pw.node) if isinstance(n, ast.Call) and norm(n) == "injected_schemas.add(sub_schema['name'])"]
     inj = [n for n in walk_local(pw.node) if isinstance(n, ast.Call) and isinstance(n.func, ast.Name) and n.func.id == "_inject_schema"]
-    ok = len(tests) == 1 and len(adds) == 1 and len(inj) == 1 and cfg.edge_dominates(tests[0], "true", cfg.node_of(inj[0])) and cfg.edge_dominates(tests[0], "true", cfg.node_of(adds[0])) and cfg.dominates(cfg.node_of(inj[0]), cfg.node_of(adds[0]))
-    ctx.check("C19.R2", "inject only if not yet injected, then record the name", ok, pw.where(), "_parse_schema_with_repo: injection bookkeeping", "a type used from several places would be inlined twice (redefined named type) or never")
-    ok = len(inj) == 1 and [norm(x) for x in inj[0].args] == ["schema", "sub_schema"]
-    ctx.check("C19.R2", "the loaded subject is injected into the schema being parsed", ok, pw.where(), f"_parse_schema_with_repo: {[norm(i) for i in inj]}", "wrong arguments to the injection step")
-    retry = [n for n in walk_local(pw.node) if isinstance(n, ast.Return) and isinstance(n.value, ast.Call) and norm(n.value.func) == pw.name]
-    ok = len(retry) == 1 and norm(retry[0].value.args[2]) == "schema_copy"
-    ctx.check("C19.R2", "the retry parses against the name table as it was before the failed attempt", ok, pw.where(), f"_parse_schema_with_repo retry: {[norm(r)[:80] for r in retry]}", "names registered by the failed attempt would make the retry see redefinitions")
+    # roles: SUB = what is injected (second argument of the injection), NAME = SUB['name'] (or a local holding it),
+    # SEEN = the collection tested with `NAME not in SEEN` and updated with `SEEN.add(NAME)`
+    ok = False
+    if len(inj) == 1 and len(inj[0].args) >= 2:
+        sub = norm(inj[0].args[1])
+        name_texts = {f"{sub}['name']"} | {t.id for n in walk_local(pw.node) if isinstance(n, ast.Assign) and norm(n.value) == f"{sub}['name']" for t in n.targets if isinstance(t, ast.Name)}
+        tests = []
+        for t in cfg.nodes:
+            if t.kind == "test" and isinstance(t.ast, ast.Compare) and len(t.ast.ops) == 1 and isinstance(t.ast.ops[0], (ast.NotIn, ast.In)) and norm(t.ast.left) in name_texts:
+                tests.append((t, "true" if isinstance(t.ast.ops[0], ast.NotIn) else "false", norm(t.ast.comparators[0])))
+        if len(tests) == 1:
+            t, lab, seen = tests[0]
+            adds = [n for n in walk_local(pw.node) if isinstance(n, ast.Call) and isinstance(n.func, ast.Attribute) and n.func.attr == "add" and norm(n.func.value) == seen and len(n.args) == 1 and norm(n.args[0]) in name_texts]
+            ok = len(adds) == 1 and cfg.edge_dominates(t, lab, cfg.node_of(inj[0])) and cfg.edge_dominates(t, lab, cfg.node_of(adds[0])) and cfg.dominates(cfg.node_of(inj[0]), cfg.node_of(adds[0]))
+    ctx.check("C19.R2", "inject only if not yet injected, then record the name", ok, pw.where(), f"{pw.name}: injection bookkeeping", "a type used from several places would be inlined twice (redefined named type) or never")
+    # the schema being parsed = the parameter handed to parse_schema
+    pcalls = [n for n in walk_local(pw.node) if isinstance(n, ast.Call) and isinstance(n.func, ast.Name) and n.func.id == "parse_schema" and n.args]
+    sparam = norm(pcalls[0].args[0]) if pcalls else None
+    ok = len(inj) == 1 and len(inj[0].args) == 2 and sparam is not None and norm(inj[0].args[0]) == sparam and isinstance(inj[0].args[1], ast.Name)
+    ctx.check("C19.R2", "the loaded subject is injected into the schema being parsed", ok, pw.where(), f"{pw.name}: {[norm(i) for i in inj]}", "wrong arguments to the injection step")
+    # the retry: a recursive call whose name-table argument is the copy taken before the failed attempt
+    tparam = None
+    for c in pcalls:
+        for k in c.keywords:
+            if k.arg == "named_schemas" and isinstance(k.value, ast.Name):
+                tparam = k.value.id
+        if tparam is None and len(c.args) > 1 and isinstance(c.args[1], ast.Name):
+            tparam = c.args[1].id
+    copies = {t.id for n in walk_local(pw.node) if isinstance(n, ast.Assign) and isinstance(n.value, ast.Call) and norm(n.value.func) in ("deepcopy", "copy.deepcopy") and tparam is not None and [norm(x) for x in n.value.args] == [tparam] for t in n.targets if isinstance(t, ast.Name)}
+    retry = [n for n in walk_local(pw.node) if isinstance(n, ast.Return) and isinstance(n.value, ast.Call) and norm(n.value.func) in (pw.name, f"self.{pw.name}")]
+    ok = False
+    if len(retry) == 1 and tparam in pw.pos_params:
+        call = retry[0].value
+        params = pw.pos_params[1:] if pw.cls is not None else pw.pos_params
+        idx = params.index(tparam) if tparam in params else None
+        got = None
+        if idx is not None and idx < len(call.args):
+            got = call.args[idx]
+        for k in call.keywords:
+            if k.arg == tparam:
+                got = k.value
+        ok = got is not None and isinstance(got, ast.Name) and got.id in copies
+    ctx.check("C19.R2", "the retry parses against the name table as it was before the failed attempt", ok, pw.where(), f"{pw.name} retry: {[norm(r)[:80] for r in retry]}", "names registered by the failed attempt would make the retry see redefinitions")
 
     ctx.rule("C19.R3", "walker agreement: _inject_schema qualifies references and tracks record namespaces like _parse_schema; same kinds", floor=4)
     inj_f = p.func("_schema_py:_inject_schema")
     ps = p.func("_schema_py:_parse_schema")
 
-    def qual_rule(f, var):
-        out = []
+    def qual_rule(f, param):
+        """conditions under which a reference (the schema parameter or a copy of it) is prefixed with the namespace;
+        also the variable that holds the qualified name"""
+        out, var = [], None
         for n in walk_local(f.node):
-            if isinstance(n, ast.If) and any(isinstance(s, ast.Assign) and norm(s) == f"{var} = namespace + '.' + {var}" for s in n.body):
-                t = n.test
-                out.append(sorted(norm(v).replace(var, "REF") for v in (t.values if isinstance(t, ast.BoolOp) and isinstance(t.op, ast.And) else [t])))
-        return out
+            if not isinstance(n, ast.If):
+                continue
+            for s in n.body:
+                if isinstance(s, ast.Assign) and len(s.targets) == 1 and isinstance(s.targets[0], ast.Name):
+                    v = s.targets[0].id
+                    if norm(s.value) != f"namespace + '.' + {v}":
+                        continue
+                    operand = s.value.right
+                    srcs = value_sources(a, f, operand)
+                    if not any(k == "param" and x.arg == param for k, x in srcs):
+                        continue
+                    t = n.test
+                    out.append(sorted(re.sub(rf"\b{re.escape(v)}\b", "REF", norm(c)) for c in (t.values if isinstance(t, ast.BoolOp) and isinstance(t.op, ast.And) else [t])))
+                    var = v
+        return out, var
 
-    qi, qp = qual_rule(inj_f, "outer_schema"), qual_rule(ps, "schema")
+    (qi, qvar), (qp, _) = qual_rule(inj_f, inj_f.pos_params[0]), qual_rule(ps, ps.pos_params[0])
     ctx.check("C19.R3", "a reference is qualified by the same rule in both walkers", qi == qp and len(qi) == 1, inj_f.where(), f"_inject_schema qualifies when {qi}; _parse_schema when {qp}", "the injector looks for a different full name than the parser resolves: the loaded type is never inlined (or inlined at the wrong place)")
     # record fields are walked under element 0 of schema_name(<schema>, <enclosing namespace>) in both walkers
     def field_ns_ok(f, callee, pos, schema_param):
@@ -100,7 +165,7 @@ def run(ctx):
     ki, kp = str_consts_compared(inj_f.node, "schema_type"), str_consts_compared(ps.node, "schema_type")
     ctx.check("C19.R3", "both walkers know the same schema kinds", ki == kp, inj_f.where(), f"_inject_schema kinds {sorted(ki)} vs _parse_schema {sorted(kp)}", "a kind the parser accepts is not walked by the injector")
     icfg = cfg_of(inj_f)
-    ok = any(isinstance(n, ast.Return) and n.value is not None and norm(n.value) == "(inner_schema, True)" and bool(eq_texts("outer_schema", "inner_schema['name']") & true_facts(icfg, icfg.node_of(n))) for n in walk_local(inj_f.node))
+    ok = any(isinstance(n, ast.Return) and n.value is not None and norm(n.value) == "(inner_schema, True)" and bool(eq_texts(qvar or "outer_schema", "inner_schema['name']") & true_facts(icfg, icfg.node_of(n))) for n in walk_local(inj_f.node))
     ctx.check("C19.R3", "the reference whose qualified name equals the loaded type's full name is replaced by its definition", ok, inj_f.where(), "_inject_schema: replacement", "the definition is not inlined at the first reference")
 
     ctx.rule("C19.R4", "ordered loading: one shared name table; injection into the last-loaded schema", floor=2)
@@ -113,7 +178,7 @@ def run(ctx):
             tbl = ns[0].id
             locfg = cfg_of(lo)
             stores = [n for n in walk_local(lo.node) if isinstance(n, (ast.Assign, ast.AnnAssign)) and any(isinstance(x, ast.Name) and x.id == tbl for t in (n.targets if isinstance(n, ast.Assign) else [n.target]) for x in ast.walk(t))]
-            in_loop = {id(x) for l in walk_local(lo.node) if isinstance(l, (ast.For, ast.While)) for x in ast.walk(l)}
+            in_loop = {id(x) for l in walk_local(lo.node) if isinstance(l, (ast.For, ast.While, ast.ListComp, ast.GeneratorExp)) for x in ast.walk(l)}
             ok = len(stores) == 1 and norm(stores[0].value) == "{}" and id(stores[0]) not in in_loop and locfg.dominates(locfg.node_of(stores[0]), locfg.node_of(calls[0])) and id(calls[0]) in in_loop
     ctx.check("C19.R4", "all listed files are loaded against one name table created before the loop", ok, lo.where(), "load_schema_ordered: shared table", "dependencies listed earlier would be unknown to the later files")
     # role: L = the list collecting the loaded schemas; the result must be its last element
@@ -125,6 +190,8 @@ def run(ctx):
             srcs = [n.args[0]] + (assigned_values(lo.node, n.args[0].id) if isinstance(n.args[0], ast.Name) else [])
             if any(isinstance(v, ast.Call) and isinstance(v.func, ast.Name) and v.func.id == "load_schema" for v in srcs):
                 L = n.func.value.id
+        if isinstance(n, ast.Assign) and len(n.targets) == 1 and isinstance(n.targets[0], ast.Name) and isinstance(n.value, ast.ListComp) and isinstance(n.value.elt, ast.Call) and isinstance(n.value.elt.func, ast.Name) and n.value.elt.func.id == "load_schema":
+            L = n.targets[0].id
     rets = [s_ for s_ in summaries(cfg_of(lo)) if s_.kind == "return"]
     if L is None or not rets:
         ctx.unrecognised("C19.R4", "load_schema_ordered", lo.where(), "the list of loaded schemas / the return were not found")
@@ -190,7 +257,10 @@ def run(ctx):
     if n_loops < 2:
         ctx.unrecognised("C19.R5", "_inject_schema", inj_f.where(), f"{n_loops} recursive calls inside loops (expected the union and the record-fields loops)")
 
-    c19_funcs = {"_parse_schema_with_repo", "load_schema", "_load_schema", "load_schema_ordered"}
+    c19_funcs = {pw.name, "_parse_schema_with_repo", "load_schema", "_load_schema", "load_schema_ordered"}
+    for f in p.all_functions():
+        if f.mod is pw.mod and any(isinstance(n, ast.Call) and norm(n.func) in ("repo.load", "self.repo.load") for n in walk_local(f.node)):
+            c19_funcs.add(f.name)
     ctx.borrow("C17", {"C17.R1": "C19.R6"}, "types registered in the caller's name table by a failed attempt are what lets a type used from several places resolve on the retry: the loader may add to that table, never clear or roll it back", only=lambda o: o["where"].split(":")[1].split(".")[-1] in c19_funcs if ":" in o["where"] else False)
 
 
